@@ -13,7 +13,7 @@
 (***************************************************************************)
 EXTENDS Pattern, Json, SequencesExt, FiniteSetsExt
 
-CONSTANTS Universe,   \* "expr" | "meta" | "args" | "elts" | "stmts"
+CONSTANTS Universe,   \* "expr" | "meta" | "multi" | "args" | "elts" | "stmts"
           MaxArgs,    \* bound on pattern list length
           MaxList     \* bound on subject list length (elision universes)
 
@@ -162,12 +162,29 @@ LPairs(kind) == {<<LWrapP(kind, PElems(kind, l)), LWrapQ(kind, QElems(kind, l))>
                    l \in {m \in SymPatsOf(kind) : \E i \in DOMAIN m : m[i] \in {"a", "b"}}}
 LSubjects(kind) == {LWrapS(kind, [i \in DOMAIN l |-> SFill(kind, l[i])]) : l \in SeqsUpTo(SubjSyms(kind), MaxList)}
 
+\* ------------------------------------------------- universe "multi" ------
+\* several elisions with repeated metavariables in one list: an earlier
+\* candidate position binds a metavariable and fails later, so the search
+\* has to come back with the binding undone (C02, C04)
+MultiSyms == {<<".", "x", ".", "x">>, <<"x", ".", "x", ".">>, <<".", "x", ".", "x", ".">>,
+              <<".", "x", ".", "y", ".", "x">>, <<"x", ".", "y", ".", "x">>, <<".", "a", ".", "x", ".", "x">>,
+              <<".", "x", "x", ".", "x">>, <<".", "x", ".", "y", ".", "x", ".", "y">>}
+MElems(l) == [i \in DOMAIN l |->
+                CASE l[i] = "." -> Dots(DName(DotIx(l, i)))
+                  [] l[i] = "x" -> X
+                  [] l[i] = "y" -> Y
+                  [] OTHER      -> Id(l[i])]
+MultiPairs == {<<Call(Id("f"), MElems(l)), Call(Id("h"), MElems(l))>> : l \in MultiSyms}
+MultiSubjects == {Call(Id("f"), [i \in DOMAIN l |-> Id(l[i])]) : l \in SeqsUpTo({"a", "b"}, MaxList)}
+
 \* ------------------------------------------------------------ selection --
 Pairs == CASE Universe = "expr" -> EPairs
            [] Universe = "meta" -> MPairs
+           [] Universe = "multi" -> MultiPairs
            [] OTHER -> LPairs(Universe)
 Subjects == CASE Universe = "expr" -> ESubjects
               [] Universe = "meta" -> MSubjects
+              [] Universe = "multi" -> MultiSubjects
               [] OTHER -> LSubjects(Universe)
 RootTy == IF Universe = "stmts" THEN "Stmt" ELSE "Expr"
 
